@@ -46,6 +46,9 @@ func (o opRec) coq() string {
 	case "del":
 		return fmt.Sprintf("OpDelHeader %s", CoqBytes([]byte(o.K)))
 	}
+	if o.Kind == "inplace" {
+		return fmt.Sprintf("OpRewriteInPlace %s", CoqBytes(o.data))
+	}
 	return fmt.Sprintf("OpSetData %s", CoqBytes(o.data))
 }
 
@@ -166,6 +169,7 @@ func c01Bolt(run *Run, cd *codecDef, v2engine bool) {
 				add(in, []opRec{{Kind: "id", ID: id}}, out, eerr != nil, rep)
 			}
 		}
+		inPlaceRewrite(run, cd, in, vf.Desc)
 		// ---- (b) modification scripts
 		for s := 0; s < run.N(3, 6); s++ {
 			f, _, err, pan := decodeFresh(cd.Proto, in)
@@ -201,6 +205,8 @@ func c01Bolt(run *Run, cd *codecDef, v2engine bool) {
 			}
 			var ops []opRec
 			changed := false
+			inPlaceSame, contentReplaced := false, false
+			_ = inPlaceSame
 			reqid := uint32(xf.GetRequestId())
 			nops := 1 + r.Intn(5)
 			scriptKind := r.Intn(6)
@@ -253,7 +259,28 @@ func c01Bolt(run *Run, cd *codecDef, v2engine bool) {
 					xf.GetHeader().Del("missing-" + randName(r, 3))
 					ops = append(ops, opRec{Kind: "del", K: "missing-key"})
 					xf.GetHeader().Del("missing-key")
+				case choice == 6 && xf.GetData() != nil: // body buffer rewritten in place, SetData with the same buffer
+					cur := xf.GetData()
+					nl := cur.Len()
+					if r.Pct(50) {
+						nl = r.Pick([]int{0, 1, nl / 2, nl + 1, nl + 7, 300})
+					}
+					d := r.Bytes(nl)
+					sameLen := nl == cur.Len()
+					cur.Reset()
+					cur.Write(d)
+					xf.SetData(cur)
+					body = d
+					ops = append(ops, opRec{Kind: "inplace", N: nl, data: d})
+					if !sameLen || nl > 0 {
+						changed = true
+					}
+					inPlaceSame = inPlaceSame || (sameLen && !contentReplaced)
+					if !sameLen {
+						contentReplaced = true
+					}
 				default: // body
+					contentReplaced = true
 					nl := pickLen(r, false)
 					if scriptKind == 2 {
 						nl = r.Pick([]int{0, 65535, 65536, 65537})
@@ -351,6 +378,9 @@ func c01X(run *Run, cd *codecDef) {
 	for i := 0; i < nframes; i++ {
 		vf := cd.Gen(r, i%8 == 7)
 		in := vf.Bytes
+		if cd.Name != "tars" {
+			c01CloneAndInPlace(run, cd, in, vf.Desc)
+		}
 		for variant := 0; variant < 4; variant++ {
 			f, backing, err, pan := decodeFresh(cd.Proto, in)
 			rep := map[string]interface{}{"codec": cd.Name, "variant": variant, "frame": vf.Desc, "input_hex": Hex(clip(in, 2048))}
@@ -645,5 +675,117 @@ func c01Premises(run *Run) {
 		if (isReq && !req2) || (!isReq && !resp2) {
 			run.Fail("premise:tarsgo-stype-law", "the tag-5 scan of a frame written by TarsGo does not classify it as it was read (premise of c01_tars_encode_decode)", map[string]interface{}{"frame_hex": Hex(clip(fr, 1024)), "type": st2})
 		}
+	}
+}
+
+// newBodyFor: a replacement body that the codec can decode again
+func newBodyFor(r *Rng, codec string, in []byte) []byte {
+	switch codec {
+	case "dubbo":
+		if in[2]&0x80 != 0 && in[2]&0x20 == 0 {
+			return dubboReqPayload("2.0.2", "com.y."+randName(r, 5), "1.0.0", randName(r, 6), r.Bytes(r.Pick([]int{0, 1, 255, 256, 1000})))
+		}
+		return r.Bytes(r.Pick([]int{0, 1, 255, 256, 1000}))
+	case "dubbo-thrift":
+		o := genThrift(r, false).Bytes
+		return o[4+int(binary.BigEndian.Uint16(o[10:12])):]
+	}
+	return r.Bytes(r.Pick([]int{0, 1, 3, 255, 256, 1000}))
+}
+
+// c01CloneAndInPlace (dubbo, dubbo-thrift: Frame.Clone returns a frame):
+//  clone scripts: decode, [SetData(new buffer)], Clone, Encode(original) and Encode(clone): no panic, same bytes
+//  in-place script: the body buffer returned by GetData is rewritten in place (what proxy SetRequestData/SetResponseData do:
+//  Reset + ReadFrom on the SAME buffer object), SetData(same buffer), Encode, Decode again: must carry the new body
+func c01CloneAndInPlace(run *Run, cd *codecDef, in []byte, desc interface{}) {
+	r := run.R
+	for _, withSet := range []bool{false, true} {
+		f, _, err, pan := decodeFresh(cd.Proto, in)
+		if f == nil || err != nil || pan != nil {
+			return
+		}
+		xf := f.(api.XFrame)
+		how := "clone"
+		if withSet {
+			how = "setdata+clone"
+			xf.SetData(buffer.NewIoBufferBytes(newBodyFor(r, cd.Name, in)))
+		}
+		rep := map[string]interface{}{"codec": cd.Name, "script": how, "frame": desc, "input_hex": Hex(clip(in, 2048))}
+		run.Count(fmt.Sprintf("%s|%s|%x", cd.Name, how, in[:8]), true, cd.Name+":"+how)
+		cl, ok := xf.GetHeader().Clone().(api.XFrame)
+		if !ok {
+			return
+		}
+		o1, e1, p1 := safeEncode(cd.Proto, f)
+		o2, e2, p2 := safeEncode(cd.Proto, cl)
+		switch {
+		case p1 != nil || p2 != nil:
+			run.Fail(cd.Name+":clone-encode-panic:"+how, fmt.Sprintf("%s: Encode of a frame / of its Clone() panicked (%v / %v) after %s", cd.Name, p1, p2, how), rep)
+		case e1 != nil || e2 != nil:
+			run.Fail(cd.Name+":clone-encode-error:"+how, fmt.Sprintf("%s: Encode of a frame / of its Clone() failed (%v / %v)", cd.Name, e1, e2), rep)
+		case !bytes.Equal(o1, o2):
+			rep["orig_hex"], rep["clone_hex"] = Hex(clip(o1, 1024)), Hex(clip(o2, 1024))
+			run.Fail(cd.Name+":clone-encodes-differently:"+how, cd.Name+": a cloned frame does not encode to the bytes of the original", rep)
+		}
+	}
+	inPlaceRewrite(run, cd, in, desc)
+	// the read buffer is reused after Decode, THEN the body is replaced: the slow path must not use bytes of the read buffer
+	{
+		f, backing, err, pan := decodeFresh(cd.Proto, in)
+		if f == nil || err != nil || pan != nil {
+			return
+		}
+		for k := range backing[:cap(backing)] {
+			backing[:cap(backing)][k] = 0x55
+		}
+		nb := newBodyFor(r, cd.Name, in)
+		f.(api.XFrame).SetData(buffer.NewIoBufferBytes(nb))
+		rep := map[string]interface{}{"codec": cd.Name, "script": "read-buffer-overwritten+setdata", "frame": desc, "input_hex": Hex(clip(in, 2048))}
+		run.Count(fmt.Sprintf("%s|ovw+set|%x", cd.Name, in[:8]), true, cd.Name+":read-buffer-overwritten+setdata")
+		out, eerr, epan := safeEncode(cd.Proto, f)
+		g, _, derr, dpan := decodeFresh(cd.Proto, out)
+		headOK := true
+		if eerr == nil && epan == nil && len(out) >= 6 {
+			switch cd.Name {
+			case "dubbo":
+				headOK = bytes.Equal(out[:4], in[:4]) // magic, flag, status
+			case "dubbo-thrift":
+				headOK = out[4] == 0xda && out[5] == 0xbc
+			}
+		}
+		if !headOK || eerr != nil || epan != nil || g == nil || derr != nil || dpan != nil || !bytes.Equal(ioBytes(g.(api.XFrame).GetData()), nb) {
+			rep["got_hex"] = Hex(clip(out, 256))
+			run.Fail(cd.Name+":slow-path-uses-read-buffer", fmt.Sprintf("%s: after the read buffer was reused and the body replaced, the re-encoded frame does not decode to the new body (err=%v/%v panic=%v/%v): the slow path uses bytes that alias the read buffer", cd.Name, eerr, derr, epan, dpan), rep)
+		}
+	}
+}
+
+// inPlaceRewrite: all codecs with a body setter (bolt, boltv2, dubbo, dubbo-thrift)
+func inPlaceRewrite(run *Run, cd *codecDef, in []byte, desc interface{}) {
+	r := run.R
+	f, _, err, pan := decodeFresh(cd.Proto, in)
+	if f == nil || err != nil || pan != nil {
+		return
+	}
+	xf := f.(api.XFrame)
+	body := xf.GetData()
+	if body == nil {
+		return
+	}
+	nb := newBodyFor(r, cd.Name, in)
+	body.Reset()
+	body.Write(nb)
+	xf.SetData(body) // the same buffer object, as the proxy does after a filter called SetRequestData
+	rep := map[string]interface{}{"codec": cd.Name, "script": "body-rewritten-in-place", "frame": desc, "input_hex": Hex(clip(in, 2048)), "new_body_len": len(nb)}
+	run.Count(fmt.Sprintf("%s|inplace|%x", cd.Name, in[:8]), true, cd.Name+":body-rewritten-in-place")
+	out, eerr, epan := safeEncode(cd.Proto, f)
+	if epan != nil || eerr != nil {
+		run.Fail(cd.Name+":body-rewritten-in-place:encode-failed", fmt.Sprintf("%s Encode failed after the body buffer was rewritten in place: %v %v", cd.Name, eerr, epan), rep)
+		return
+	}
+	g, _, derr, dpan := decodeFresh(cd.Proto, out)
+	if g == nil || derr != nil || dpan != nil || !bytes.Equal(ioBytes(g.(api.XFrame).GetData()), nb) {
+		rep["got_hex"] = Hex(clip(out, 1024))
+		run.Fail(cd.Name+":body-rewritten-in-place-not-encoded", fmt.Sprintf("%s: the body buffer returned by GetData was rewritten in place (Reset+Write on the same buffer, as proxy SetRequestData does) but the encoded frame does not decode to the new body (fast path reuses the raw frame, whose payload bytes the rewrite also overwrote)", cd.Name), rep)
 	}
 }
